@@ -239,6 +239,21 @@ func c13(run *ev.Run) int {
 					st.duplexStream(id, procs, b)
 				}(b)
 			}
+			// ... streams whose handler finishes while the sender is still busy, and
+			// streams whose receive side is closed before the first Send
+			for b := 0; b < run.Pick(3, 6); b++ {
+				wg.Add(2)
+				go func(b int) {
+					defer wg.Done()
+					id := atomic.AddUint64(&nextID, 1) + 1<<44
+					st.duplexEarlyFinish(id, procs, b)
+				}(b)
+				go func(b int) {
+					defer wg.Done()
+					id := atomic.AddUint64(&nextID, 1) + 1<<45
+					st.closeResponseFirst(id, procs, b)
+				}(b)
+			}
 			wg.Wait()
 			// Cancelled duplex streams get the machine to themselves: under the
 			// heavy mixed load above the cancel usually lands before the response
@@ -961,5 +976,119 @@ func (s *c13State) heldResponseCancel(id uint64, procs, x int) {
 			run.Violation(key+"/uncoded", "operation on a call cancelled during a held response returned an uncoded error: "+e.Error(), nil)
 			return
 		}
+	}
+}
+
+func (s *c13State) h2Client(id uint64) *c13Client {
+	var h2 []*c13Client
+	for _, c := range s.clients {
+		if c.http2 {
+			h2 = append(h2, c)
+		}
+	}
+	return h2[int(id)%len(h2)]
+}
+
+// duplexEarlyFinish: the handler answers and returns while the sender goroutine
+// is still sending; the receiver goroutine reads the response to its end at the
+// same time. Send must be safe to call concurrently with everything the
+// receive side does (the race detector watches); both sides terminate.
+func (s *c13State) duplexEarlyFinish(id uint64, procs, b int) {
+	run := s.run
+	c := s.h2Client(id)
+	replies := []*gen.Msg{gen.New(id*1024+512, 100, true), gen.New(id*1024+513, 3000, true)}
+	prog := &svc.Program{Steps: []svc.Step{{Op: "recv"}, {Op: "send", Msg: replies[0]}, {Op: "send", Msg: replies[1]}}}
+	call := s.srv.Reg.New("c13e", prog)
+	defer s.srv.Reg.Drop(call)
+	st := c.cs.C[svc.Bidi].CallBidiStream(context.Background())
+	st.RequestHeader().Set(wire.CallHeader, call.ID)
+	small := gen.New(id*1024, 200, false)
+	var sendErr, recvErr error
+	var got []*gen.Msg
+	sent := make(chan struct{})
+	go func() {
+		defer close(sent)
+		for i := 0; i < 400; i++ {
+			if err := st.Send(small); err != nil {
+				sendErr = err
+				return
+			}
+			if i%8 == 7 {
+				runtime.Gosched()
+			}
+		}
+	}()
+	ok, dump := watchdog(120*time.Second, func() {
+		for {
+			m, err := st.Receive()
+			if err != nil {
+				if !errors.Is(err, io.EOF) {
+					recvErr = err
+				}
+				break
+			}
+			got = append(got, m)
+		}
+		<-sent
+		_ = st.CloseRequest()
+		_ = st.CloseResponse()
+	})
+	run.Count("calls", 1)
+	run.Count("duplex.early_finish_streams", 1)
+	run.Eval(fmt.Sprintf("duplex-early-finish|%s|procs=%d", c.name, procs))
+	key := "c13/duplex-early-finish/" + c.name
+	if !ok {
+		run.Violation(key+"/hang", "bidi stream whose handler finished while the client was still sending hung", trunc(dump, 30000))
+		return
+	}
+	detail := map[string]any{"client": c.name, "send_err": errStr(sendErr), "recv_err": errStr(recvErr), "received": len(got)}
+	if recvErr != nil || len(got) != len(replies) || got[0].Id != replies[0].Id || got[1].Id != replies[1].Id {
+		run.Violation(key+"/replies", "the receiver did not get the handler's replies while the sender was still sending", detail)
+		return
+	}
+	if sendErr != nil && !errors.Is(sendErr, io.EOF) {
+		var ce *connect.Error
+		if !errors.As(sendErr, &ce) || ce.Code() == 0 {
+			run.Violation(key+"/send-error", "Send after the handler had finished failed with an uncoded error: "+sendErr.Error(), detail)
+		}
+	}
+}
+
+// closeResponseFirst: one goroutine closes the receive side of a stream before
+// the goroutine that owns the send side has sent anything (CloseResponse is
+// safe to call concurrently with all other methods). The sender must not be
+// left blocked: its Sends return, with or without an error.
+func (s *c13State) closeResponseFirst(id uint64, procs, b int) {
+	run := s.run
+	c := s.h2Client(id)
+	prog := &svc.Program{Steps: []svc.Step{{Op: "recvall"}}}
+	call := s.srv.Reg.New("c13f", prog)
+	defer s.srv.Reg.Drop(call)
+	ctx, cancel := context.WithCancel(context.Background())
+	defer cancel()
+	st := c.cs.C[svc.Bidi].CallBidiStream(ctx)
+	st.RequestHeader().Set(wire.CallHeader, call.ID)
+	small := gen.New(id*1024, 50, false)
+	closed := make(chan struct{})
+	go func() {
+		defer close(closed)
+		_ = st.CloseResponse() // waits for the request to be made, then closes
+	}()
+	ok, dump := watchdog(60*time.Second, func() {
+		time.Sleep(40 * time.Millisecond) // CloseResponse gets in first
+		for i := 0; i < 20; i++ {
+			if err := st.Send(small); err != nil {
+				break
+			}
+		}
+		_ = st.CloseRequest()
+		<-closed
+	})
+	run.Count("calls", 1)
+	run.Count("duplex.close_response_first_streams", 1)
+	run.Eval(fmt.Sprintf("close-response-first|%s|procs=%d", c.name, procs))
+	if !ok {
+		cancel()
+		run.Violation("c13/close-response-first/"+c.name+"/hang", "one goroutine closed the receive side of a stream before the other had sent anything: Send / CloseRequest / CloseResponse did not all return", trunc(dump, 30000))
 	}
 }
